@@ -65,6 +65,8 @@ def run(ctx):
                 continue
             cat_pair = i <= ncat and j <= ncat
             reps = [("i64", "i64"), ("i32", "i64")] + ([("i32", "i32"), ("u32", "i32")] if cat_pair and "kK" not in (pool[i - 1][0], pool[j - 1][0]) else [])
+            # widening / narrowing / floating destinations: the calculation type differs from the source rep
+            reps += [("u32", "i64"), ("u32", "f64"), ("i16", "i32"), ("u16", "i32"), ("i32", "f64"), ("u32", "u16"), ("u64", "u32"), ("i8", "i32"), ("i16", "f32")][(i * 3 + j) % 3::3] if cat_pair else [("u32", "i64"), ("i32", "f64")][(i + j) % 2::2]
             for r1, r2 in reps:
                 convs.append({"kind": "conv", "i": i, "j": j, "R1": r1, "R2": r2})
             if i < j:
@@ -73,11 +75,19 @@ def run(ctx):
                 # mixed reps (catalogue temperature units only: every scaled value stays far inside the common rep)
                 for r1, r2 in (("u16", "i32"), ("i16", "i64"), ("i32", "i64"), ("i32", "i16")):
                     mixeds.append({"kind": "mixed", "i": i, "j": j, "R": r1, "R2": r2})
+    # unsigned sources with the top bit set into narrower unsigned destinations, same origin (pure scaling down): always included
+    must = []
+    name_idx = {nm: k + 1 for k, (nm, _t) in enumerate(pool)}
+    for (u1, u2) in (("mK", "kK"), ("mK", "Kelvins"), ("Kelvins", "kK"), ("mC", "cC"), ("mC", "Celsius"), ("mF", "Fahrenheit")):
+        for rp in (("u32", "u16"), ("u64", "u32"), ("u32", "u8"), ("u64", "u16")):
+            must.append({"kind": "conv", "i": name_idx[u1], "j": name_idx[u2], "R1": rp[0], "R2": rp[1]})
+    convs = [c for c in convs if not any(c["i"] == m["i"] and c["j"] == m["j"] and c["R1"] == m["R1"] and c["R2"] == m["R2"] for m in must)]
     if ctx.tier == "quick":
         rnd.shuffle(convs)
         convs = [c for c in convs if c["i"] <= 3 and c["j"] <= 3] + convs[:90]
         rnd.shuffle(mixeds)
         mixeds = [m for m in mixeds if m["j"] <= 3 and m["i"] <= 3] + mixeds[:30]
+    convs = must + convs
 
     def make_src(b):
         L = [pre, "int main(int argc, char **argv) {", "  uint64_t seed = argc > 1 ? (uint64_t)std::atoll(argv[1]) : 1;"]
@@ -85,8 +95,10 @@ def run(ctx):
             k = con[(c["i"], c["j"])]
             t1, t2 = pool[c["i"] - 1][1], pool[c["j"] - 1][1]
             if c["kind"] == "conv":
-                lo = -40000 if c["R1"][0] == "i" else 0
-                L.append('  auv::pconv<%s, %s, %s, %s>(%d, %d, "%s", "%s", "%s", %dLL, %dLL, seed);' % (t1, CXX_T[c["R1"]], t2, CXX_T[c["R2"]], c["i"], c["j"], k["A"], k["B"], k["C"], lo, 400000 if c["R2"] == "i64" else 40000))
+                lo = (-40000 if c["R1"] not in ("i8", "i16") else -(1 << (int(c["R1"][1:]) - 1))) if c["R1"][0] == "i" else 0
+                L.append('  auv::pconv<%s, %s, %s, %s>(%d, %d, "%s", "%s", "%s", %dLL, %dLL, seed);' % (t1, CXX_T[c["R1"]], t2, CXX_T[c["R2"]], c["i"], c["j"], k["A"], k["B"], k["C"], lo, {"i8": 127, "i16": 32767, "u16": 65535}.get(c["R1"], 400000 if c["R2"] in ("i64", "f64") else 40000)))
+                if c in must:
+                    L[-1] = L[-1].replace("%dLL, seed);" % 40000, "4000000000LL, seed);")
             else:
                 L.append('  auv::pmixed<%s, %s, %s, %s>(%d, %d, "%s", "%s", "%s", "%s", seed);' % (t1, t2, CXX_T[c["R"]], CXX_T[c["R2"]], c["i"], c["j"], k["pa1"], k["pb1"], k["pa2"], k["pb2"]))
         return "\n".join(L + ["  return 0;", "}"]) + "\n"
@@ -114,7 +126,7 @@ def run(ctx):
         badk.add(json.dumps(key, sort_keys=True) + r["cfg"])
         ctx.violation(key, "point %s %s -> %s: %s [%s]; generated units: %s" % (
             "conversion" if r["k"] == "pconv" else "mixed operations", key["U1"], key["U2"],
-            {k: (wire_to_int(v) if isinstance(v, dict) else v) for k, v in r.items() if k not in ("dmag", "smag", "k", "cfg")}, r["cfg"], decls), detail=b)
+            {k: ((core.fval(v) if "cls" in v else wire_to_int(v)) if isinstance(v, dict) else v) for k, v in r.items() if k not in ("dmag", "smag", "k", "cfg")}, r["cfg"], decls), detail=b)
     for r in obs:
         if r["why"] == "mismatch":
             key = {"U1": pool[r["i"] - 1][0], "U2": pool[r["j"] - 1][0], "x": str(wire_to_int(r["x"])), "kind": r["k"]}
@@ -141,6 +153,6 @@ def run(ctx):
                 ctx.violation({"probe": name, "kind": "accepted" if ok else "rejected"}, "'%s' compiles=%s but must %s [%s] %s" % (stmt, ok, "compile" if expect else "be rejected", cfg, " | ".join(diag)[:300]), detail=stmt)
     ctx.programs += 2 * (len(FORBIDDEN) + len(TWINS))
     for r in obs[:2] + [o for o in obs if o["k"] == "pmixed"][:1]:
-        ctx.sample({k: (wire_to_int(v) if isinstance(v, dict) else v) for k, v in r.items() if k not in ("dmag", "smag")})
+        ctx.sample({k: ((core.fval(v) if "cls" in v else wire_to_int(v)) if isinstance(v, dict) else v) for k, v in r.items() if k not in ("dmag", "smag")})
     ctx.layers["BC"] = {"point_units": [p[0] for p in pool], "generated": decls, "conversion_instances": len(convs), "mixed_instances": len(mixeds),
                         "records_validated_by_TLC": nval, "forbidden_probes": len(FORBIDDEN), "twins": len(TWINS), "configs": cfgs}
